@@ -217,7 +217,10 @@ class Bench:
     def __init__(self):
         self.world, self.proto = mgr.serving_manager(version=2)
 
-    def run(self, blocks, advance, policy, rng, coop):
+    def run(self, blocks, advance, policy, rng, coop, heal=True, lost_answer_at=None):
+        """heal=False: whatever an earlier request left to repair is repaired by the manager itself;
+        lost_answer_at=k: the answer to the k-th exchange of the block command (counted from 0, the exchanges of a
+        repair not included) never arrives - the device did receive and act on what it was sent."""
         install(self.world)
         d = self.world.device
         d.mode = MODE_SIGNER
@@ -225,7 +228,19 @@ class Bench:
         d.block_policy = policy
         del d.blk_log[:]
         del self.world.log[:]
-        self.proto._comm_issue = False
+        if heal:
+            self.proto._comm_issue = False
+        self.world.fault_hook = None
+        if lost_answer_at is not None:
+            seen = {"n": 0}
+
+            def hook(w, apdu, idx, k=lost_answer_at):
+                if len(apdu) > 1 and apdu[1] in (0x10, 0x30):
+                    seen["n"] += 1
+                    if seen["n"] == k + 1:
+                        return ("timeout",)
+                return None
+            self.world.fault_hook = hook
         req = request_for(blocks, advance, rng)
         o = mgr.handle_line(self.proto, json.dumps(req).encode())
         rep = o.reply() or {}
@@ -246,7 +261,9 @@ class Bench:
                     "bros": [{"meta": list(x["meta"]), "data": list(x["data"])} for x in blk["bros"]]})
         t = {"advance": advance, "count": list(struct.pack(">I", len(blocks))),
              "blocks": align_ties(expected(blocks, advance), blocks, got) if advance else expected(blocks, advance),
-             "got": got, "dev": dev, "code": code if has else 99, "hascode": has, "coop": bool(coop)}
+             "got": got, "dev": dev, "code": code if has else 99, "hascode": has, "coop": bool(coop),
+             "lost": lost_answer_at is not None}
         meta = {"code": code, "apdus": len([e for e in self.world.log if e["ev"] == "apdu"]),
                 "shutdown": o.shutdown, "n_blocks": len(blocks)}
+        self.world.fault_hook = None
         return t, meta
